@@ -183,6 +183,12 @@ def make_pool(asm, n, root='/nonexistent-bbc16'):
     for rel in sorted(enc):
         pool.append(dict(kind='encoding:' + rel.split('/')[1], group='encoding', path=os.path.join(root, rel), include_dirs=None, files=enc,
                          troot=os.path.join(root, 'e')))
+    # one project directory whose included file is rewritten between calls: three variants of the same length
+    for tag, v in (('a', 0x11), ('b', 0x22), ('c', 0x33)):
+        fl = {'main.asm': 'include cfg.asm\nrw_entry:\n    li t0, RW_BASE\n    addi t1, t1, RW_STEP\n    j rw_entry\n',
+              'cfg.asm': 'RW_BASE = 0x400%02x000\nRW_STEP = %d\n' % (v, v % 7 + 1)}
+        pool.append(dict(kind='rewritten-' + tag, group='rewrite', path=os.path.join(root, 'rw', 'w0', 'main.asm'), include_dirs=None,
+                         rewrite=fl, files={'rw/w0/' + k: c for k, c in fl.items()}, troot=os.path.join(root, 'rw')))
     for j, p in enumerate(pool):
         p['id'] = j
     return pool
@@ -203,6 +209,16 @@ def call(asm, prog, compress, mode, state):
     labels = constants = None
     if 'path' in prog:
         src = prog['path']
+        if prog.get('rewrite'):
+            # the project is written out anew before this call (same paths, same sizes, same timestamps as whatever variant
+            # was there before): what is assembled is what the files hold NOW
+            wdir = os.path.join(state.get('_root', os.path.dirname(os.path.dirname(src))), 'rw', 'w%d' % state.get('_wid', 0))
+            os.makedirs(wdir, exist_ok=True)
+            for rel, content in prog['rewrite'].items():
+                with open(os.path.join(wdir, rel), 'wb') as f:
+                    f.write(content.encode('utf-8'))
+                os.utime(os.path.join(wdir, rel), (1700000000, 1700000000))
+            src = os.path.join(wdir, 'main.asm')
         extra = dict(include_dirs=(list(prog['include_dirs']) if prog['include_dirs'] is not None else None))
     else:
         src, extra = prog['src'], {}
@@ -373,7 +389,7 @@ def worker(args):
         plan = history_plan(rnd, len(pool), groups)
         before = snapshot(asm)
         obefore = other_state(asm)
-        state = {}
+        state = {'_wid': wid, '_root': root}
         trace = []
         for step, (pid, compress, mode) in enumerate(plan):
             res = call(asm, pool[pid], compress, mode, state)
